@@ -45,7 +45,7 @@ def dyn_paths(quick):
 @st.composite
 def init_cases(draw, paths):
     return dict(path=draw(st.sampled_from(paths)),
-                variant=draw(st.sampled_from(['asis', 'asis', 'offline', 'offline_syn', 'split_ok', 'split_bad', 'limit_below'])),
+                variant=draw(st.sampled_from(['asis', 'asis', 'offline', 'offline_syn', 'split_ok', 'split_bad', 'limit_below', 'degenerate', 'degenerate'])),
                 sel=draw(st.integers(0, 50)), gamma=draw(st.sampled_from([0.3, 0.5, 0.75])),
                 bad_sum=draw(st.sampled_from([0.8, 1.2])),
                 # voltage dependence of the static loads during the simulation (constant power / current / impedance weights)
@@ -123,6 +123,11 @@ def build_variant(c):
                 break
         else:
             return None, info
+    elif v == 'degenerate':
+        # inconsistent data that make some initial value undefined (division by a zero gain / coinciding breakpoints):
+        # a drawn numerical datum of a drawn dynamic device is set to zero or to its neighbour after set-up
+        info['consistent'] = False
+        info['degenerate'] = True
     elif v != 'asis':
         return None, info
     cwd = os.getcwd()
@@ -136,6 +141,25 @@ def build_variant(c):
         ss = build.system_from_rows(rows, rc=rc)
     finally:
         os.chdir(cwd)
+    if info.get('degenerate') and ss is not None and ss.is_setup:
+        dyn = [m for m, mdl in ss.models.items() if mdl.n and mdl.flags.tds and not mdl.flags.pflow and mdl.group != 'TimedEvent']
+        if not dyn:
+            return None, info
+        if c.get('degenerate_spec'):
+            specs = c['degenerate_spec']
+        else:
+            m = dyn[c['sel'] % len(dyn)]
+            mdl = ss.models[m]
+            nums = [p for p, par in mdl.num_params.items() if p not in ('u', 'Sn', 'Vn', 'fn') and par.v.dtype.kind == 'f']
+            if not nums:
+                return None, info
+            specs = [[m, nums[(c['sel'] * 7 + int(c['gamma'] * 100)) % len(nums)], 0.0]]
+        for m, pname, val in specs:
+            mdl = ss.models[m]
+            if mdl.n == 0:
+                return None, info
+            mdl.num_params[pname].v[c['sel'] % mdl.n] = val
+        info['note'] = 'degenerate ' + ', '.join('%s.%s=%g' % (m, pn, v_) for m, pn, v_ in specs)
     return ss, info
 
 
@@ -355,6 +379,13 @@ def camp_init(ctx):
             ctx.current_case = c
             ctx.evaluated()
             init_case(ctx, c)
+    if ctx.shard == 0 and os.path.isfile(os.path.join(build.cases_root(), 'ieee14/ieee14_solar.xlsx')):
+        c = dict(path='ieee14/ieee14_solar.xlsx', variant='degenerate', sel=0, gamma=0.5, bad_sum=1.2, zip_p=None, zip_q=None,
+                 degenerate_spec=[['REGCA1', 'Lvpnt0', 1.05], ['REGCA1', 'Lvpnt1', 1.10]])
+        ctx.current_case = c
+        ctx.evaluated()
+        ctx.count('anchor:undefined_initial_value')
+        init_case(ctx, c)
     drive(ctx, init_cases(paths), body, 12 if quick else 120, name='init', chunk=6, shrink=False, budget_s=120 if quick else 1500)
 
 
